@@ -49,6 +49,18 @@ pub trait Buf {
     fn get_i32(&mut self) -> i32 { assert!(self.remaining() >= 4); let c = self.chunk(); let r = i32::from_be_bytes([c[0], c[1], c[2], c[3]]); self.advance(4); r }
     fn get_u32(&mut self) -> u32 { self.get_i32() as u32 }
     fn get_i64(&mut self) -> i64 { assert!(self.remaining() >= 8); let c = self.chunk(); let r = i64::from_be_bytes([c[0], c[1], c[2], c[3], c[4], c[5], c[6], c[7]]); self.advance(8); r }
+    fn get_i8(&mut self) -> i8 { self.get_u8() as i8 }
+    fn get_u64(&mut self) -> u64 { self.get_i64() as u64 }
+    /// bytes::Buf::get_uint: nbytes (<= 8) big-endian, zero-extended
+    fn get_uint(&mut self, nbytes: usize) -> u64 { assert!(nbytes <= 8 && self.remaining() >= nbytes); let mut b = [0u8; 8]; { let c = self.chunk(); if nbytes >= 1 { b[8 - nbytes] = c[0]; } if nbytes >= 2 { b[9 - nbytes] = c[1]; } if nbytes >= 3 { b[10 - nbytes] = c[2]; } if nbytes >= 4 { b[11 - nbytes] = c[3]; } if nbytes >= 5 { b[12 - nbytes] = c[4]; } if nbytes >= 6 { b[13 - nbytes] = c[5]; } if nbytes >= 7 { b[14 - nbytes] = c[6]; } if nbytes >= 8 { b[15 - nbytes] = c[7]; } } self.advance(nbytes); u64::from_be_bytes(b) }
+    /// bytes::Buf::get_int: nbytes (<= 8) big-endian, sign-extended
+    fn get_int(&mut self, nbytes: usize) -> i64 { let u = self.get_uint(nbytes); if nbytes == 0 || nbytes >= 8 { u as i64 } else { let sh = 64 - 8 * nbytes as u32; ((u << sh) as i64) >> sh } }
+    fn get_i16_le(&mut self) -> i16 { self.get_i16().swap_bytes() }
+    fn get_u16_le(&mut self) -> u16 { self.get_u16().swap_bytes() }
+    fn get_i32_le(&mut self) -> i32 { self.get_i32().swap_bytes() }
+    fn get_u32_le(&mut self) -> u32 { self.get_u32().swap_bytes() }
+    fn get_i64_le(&mut self) -> i64 { self.get_i64().swap_bytes() }
+    fn get_u64_le(&mut self) -> u64 { self.get_u64().swap_bytes() }
     fn copy_to_slice(&mut self, dst: &mut [u8]) { assert!(self.remaining() >= dst.len()); let n = dst.len(); dst.copy_from_slice(&self.chunk()[..n]); self.advance(n); }
 }
 impl Buf for BytesMut {
